@@ -20,7 +20,7 @@ Your task: make ONE small, realistic change to the library source under {wt}/src
   (b) the whole existing test suite still passes unchanged (do not edit or delete existing tests), and
   (c) the breakage needs something specific to manifest - an unusual input, a particular boundary value, a multi-step sequence of operations, a fault at a particular point, or two cooperating sites that each look fine alone - rather than being exposed at once by ordinary use.
 {hint}
-Then write a demonstration: a new integration test file {wt}/tests/seeded_demo.rs (or a small example program) that FAILS with your change and PASSES on the unmodified tree. Verify both directions yourself: run the demo with your change (must fail), then `git stash` the src change (keep the demo), run it again (must pass), then `git stash pop`. Also run the full existing suite with your change and confirm all 42 tests pass.
+Then write a demonstration: a new integration test file {wt}/tests/seeded_demo.rs (or a small example program) that FAILS with your change and PASSES on the unmodified tree. Verify both directions yourself: run the demo with your change (must fail), then save and remove the src change with `git diff -- src > {wt}.patch && git checkout -- src` (keep the demo; do NOT use `git stash`, the stash is shared between worktrees), run it again (must pass), then re-apply with `git apply {wt}.patch`. Also run the full existing suite with your change and confirm all 42 tests pass.
 
 Do NOT commit anything. When done, leave the worktree with your change applied and the demo file present, and write these files:
   {wt}/SEEDED/patch.diff   - output of `git diff -- src` (the source change only)
